@@ -19,12 +19,15 @@ SPEC = dict(
     level_note='regex site finder exercised with letters, character classes, overlapping and anchored consuming patterns (zero-width rule keys '
                'are outside the oracle).',
     design_ref='DESIGN.md section 6, C13',
-    contracts=['varmods'],
+    contracts=['varmods', 'stores'],
     technique='weakest-precondition VCs from the real AST of the recursive enumerator and its builder against sidecar contracts (bag of yielded forms, recursion measure), discharged by z3 / cvc5; bounded run-time contract check against an exhaustive subset enumeration as labelled stand-in for exact enumeration and the static builder',
     bounded=[dict(name='C13-bounded', script='bounded/C13.py')],
     replay_finder='bounded/C13.py',
     explanation='safety half of the variable builder proved (nothing else changes, budget, termination); exact enumeration, terminal rules, append / overwrite values and idempotence bounded',
-    proved_clauses=['apply_variable_mods with residue rules only (annotation return type): the forms of the builder on a COPY of the peptide -- each keeps the residues '
+    proved_clauses=['the terminal stores the static builder writes through (add_nterm_mods / add_cterm_mods and the two property setters with a value): replace / '
+                    'append / clear exactly as documented, nothing else touched (contracts/stores.py; mutation through the read-only property alias and '
+                    'extension of an opaque list are modelled)',
+                    'apply_variable_mods with residue rules only (annotation return type): the forms of the builder on a COPY of the peptide -- each keeps the residues '
                     'and every other annotation, has at most max_mods additional modified residues, and in skip mode keeps every existing modification '
                     '(apply_variable_mods~residues, over the contracts of the enumerator)',
                     'static builder, terminal rules (N-terminal / C-terminal rule maps, any mode): the terminus is modified iff a rule with a non-empty '
